@@ -84,6 +84,19 @@ theorem or_inference_tree_sound (F : List (List String)) (cs : List PTree) (hcls
     (inferOrNode F (.node .and cs)).sem s :=
   infer_or_tree_sound F cs hcls hne hdisj s hs hsne hraw
 
+/-- … and the same for a parallel node anywhere below the top, where the sets it has to produce are the projections of
+the observed sets onto its own event names: `s` agrees with some observed `s0` on the names of the node -/
+theorem or_inference_tree_sound_below (F : List (List String)) (cs : List PTree) (hcls : ∀ c ∈ cs, Classified c)
+    (hne : ∀ c ∈ (classify cs).2, ∀ s, c.sem s → s ≠ [])
+    (hdisj : ∀ x, x ∈ PTree.labelsL (classify cs).2 →
+      x ∉ PTree.labelsL ((classify cs).1.flatMap grandchildrenOf))
+    (s : List String)
+    (hs : ∃ s0 ∈ F, ∀ x, (x ∈ PTree.labelsL (classify cs).2 ∨
+      x ∈ PTree.labelsL ((classify cs).1.flatMap grandchildrenOf)) → (x ∈ s0 ↔ x ∈ s))
+    (hsne : s ≠ []) (hraw : (PTree.node .and cs).sem s) :
+    (inferOrNode F (.node .and cs)).sem s :=
+  infer_or_tree_sound_proj F cs hcls hne hdisj s hs hsne hraw
+
 /-- non-vacuity: `+(c, X(tau, X(a, b)))` — an optional branch that is itself a choice — with the observations `{c}`,
 `{c, a}` meets every hypothesis, and the rewritten node produces `{c, a}` -/
 example : (inferOrNode [["c"], ["c", "a"]]
